@@ -147,20 +147,43 @@ func histObligs(tier string, panicViol bool) []Oblig {
 	return obs
 }
 
+// per-call lemmas from canonical states (H_step)
+func stepObligs(tier string, panicViol bool) []Oblig {
+	var obs []Oblig
+	shapes, modes, nqs, ops := []int{2, 5}, []int{0, 1}, []int{1}, coreOps
+	if tier == "thorough" {
+		shapes, modes, nqs = []int{0, 2, 3, 5, 6, 8}, []int{0, 1, 2}, []int{1, 2}
+		ops = nil
+		for op := 0; op < nHistOps; op++ {
+			ops = append(ops, op)
+		}
+	}
+	for _, sh := range shapes {
+		for _, m := range modes {
+			for _, nq := range nqs {
+				for _, op := range ops {
+					obs = append(obs, Oblig{Harness: "H_step", Args: []int{sh, m, nq, op, 1}, PanicViol: panicViol})
+				}
+			}
+		}
+	}
+	return obs
+}
+
 func histBounds(tier string) map[string]interface{} {
 	if tier == "thorough" {
-		return map[string]interface{}{"history_length": "1..3 calls", "scripts": "all 19 ops (len 1), all 361 pairs (payload 1 B), 100 core pairs (payload 2 B), 400 core triples (payload 1 B)", "payload": "fully symbolic bytes (<=3), full 32-bit runes, full bytes, ints 0..99"}
+		return map[string]interface{}{"per_call_lemmas": "one arbitrary call from every canonical state Can(P,m,Q): 6 fragment shapes x 3 modes x 1-2 pending symbolic bytes x 19 ops", "history_length": "1..3 calls", "scripts": "all 19 ops (len 1), all 361 pairs (payload 1 B), 100 core pairs (payload 2 B), 400 core triples (payload 1 B)", "payload": "fully symbolic bytes (<=3), full 32-bit runes, full bytes, ints 0..99"}
 	}
-	return map[string]interface{}{"history_length": "1..3 calls", "scripts": "all 19 ops (payload 1 and 3 B), 100 core pairs (payload 1 B), 16 string-op pairs (payload 2 B), 12 triples", "payload": "fully symbolic bytes (<=3), full 32-bit runes, full bytes, ints 0..99"}
+	return map[string]interface{}{"per_call_lemmas": "one arbitrary call from canonical states Can(P,m,Q): 2 fragment shapes x 2 modes x 1 pending symbolic byte x 10 ops", "history_length": "1..3 calls", "scripts": "all 19 ops (payload 1 and 3 B), 100 core pairs (payload 1 B), 16 string-op pairs (payload 2 B), 12 triples", "payload": "fully symbolic bytes (<=3), full 32-bit runes, full bytes, ints 0..99"}
 }
 
 func init() {
 	register(&CheckSpec{
 		ID:      "C09",
 		Props:   []string{"C09"},
-		Obligs:  func(tier string) []Oblig { return histObligs(tier, false) },
+		Obligs:  func(tier string) []Oblig { return append(histObligs(tier, false), stepObligs(tier, false)...) },
 		Bounds:  histBounds,
-		Goals:   []string{"valid-payloads"},
+		Goals:   []string{"valid-payloads", "step-valid"},
 		Assume:  []string{"the two equalities are asserted only for valid-UTF-8 string payloads, valid runes and ASCII single bytes (the property's quantifier); well-formedness and line safety for all payloads"},
 		Stubs:   []string{"sync.Pool: LIFO model", "strconv.AppendFloat on the concrete 1.5 interpreted from source"},
 		Outside: []string{"histories longer than 3 calls", "payloads longer than 3 bytes", "paths that end in a panic (see C11)"},
